@@ -33,24 +33,26 @@ pub enum Case {
     /// on write with a partial write, EIO on fsync) at the `at`-th data-path call of the
     /// single-threaded history `base`; every failed call is repeated afterwards
     HardIo { base: Plan, at: u64 },
+    /// the same at every data-path call index of `base` (enumerated inside the case's process)
+    HardIoSweep { base: Plan },
 }
 
 impl Case {
     pub fn plan(&self) -> &Plan {
         match self {
             Case::Plain { plan } => plan,
-            Case::Faulted { base, .. } | Case::HardIo { base, .. } => base,
+            Case::Faulted { base, .. } | Case::HardIo { base, .. } | Case::HardIoSweep { base } => base,
         }
     }
     pub fn plan_mut(&mut self) -> &mut Plan {
         match self {
             Case::Plain { plan } => plan,
-            Case::Faulted { base, .. } | Case::HardIo { base, .. } => base,
+            Case::Faulted { base, .. } | Case::HardIo { base, .. } | Case::HardIoSweep { base } => base,
         }
     }
 }
 
-#[derive(Clone, Debug, Default)]
+#[derive(Clone, Debug, Default, Serialize, Deserialize)]
 pub struct Outcome {
     /// violations tagged with the property under check
     pub own: Vec<Violation>,
@@ -199,55 +201,59 @@ pub fn check_plain(prop: &str, plan: &Plan) -> Outcome {
     if out.capped {
         return out; // discarded, never counted as a pass
     }
-    let mut vs = e.violations.clone();
     let perturbed = plan.cfg.faults.hard_io_at.is_some();
-    vs.extend(oracle::check_results(plan, &model, &e, perturbed));
     let no_render = cfg!(feature = "format");
-    vs.extend(oracle::check_final_tree(plan, &model, &e, no_render));
-    vs.extend(oracle::check_idempotence(plan, &model, &e));
-    vs.extend(oracle::check_strings(plan, &model, &e));
-    vs.extend(oracle::check_c11(plan, &model, &e));
-    // import / layout oracles on the files written by the last process
-    // files of the last simulated process: those it opened for writing plus those the model
-    // says it exported to (an implementation may legitimately skip rewriting identical bytes)
-    let mut last_written = e.written.last().cloned().unwrap_or_default();
-    let first_of_last = (0..plan.phases.len()).rev().find(|p| plan.phases[*p].fresh_process).unwrap_or(0);
-    for c in e.calls.iter().filter(|c| c.phase >= first_of_last && c.result.is_ok()) {
-        if let Ok(adds) = oracle::op_adds(&model, &c.op) {
-            last_written.extend(adds.into_iter().map(|a| a.0));
+    let judge = |e: &Exec| -> (Vec<Violation>, BTreeSet<String>) {
+        let mut vs = e.violations.clone();
+        vs.extend(oracle::check_results(plan, &model, e, perturbed));
+        vs.extend(oracle::check_final_tree(plan, &model, e, no_render));
+        vs.extend(oracle::check_idempotence(plan, &model, e));
+        vs.extend(oracle::check_strings(plan, &model, e));
+        vs.extend(oracle::check_c11(plan, &model, e));
+        // files of the last simulated process: those it opened for writing plus those the
+        // model says it exported to (an implementation may legitimately skip rewriting
+        // identical bytes)
+        let mut last_written = e.written.last().cloned().unwrap_or_default();
+        let first_of_last = (0..plan.phases.len()).rev().find(|p| plan.phases[*p].fresh_process).unwrap_or(0);
+        for c in e.calls.iter().filter(|c| c.phase >= first_of_last && c.result.is_ok()) {
+            if let Ok(adds) = oracle::op_adds(&model, &c.op) {
+                last_written.extend(adds.into_iter().map(|a| a.0));
+            }
         }
-    }
-    let closed = !plan
-        .phases
-        .last()
-        .map(|p| p.threads.iter().flatten().any(|o| matches!(o, Op::Export { .. })))
-        .unwrap_or(false)
-        && e.calls.iter().all(|c| c.result.is_ok());
-    let (iv, shapes) = oracle::check_imports(&model, &e.final_files, &last_written, closed, "final tree");
-    vs.extend(iv);
+        let closed = !plan
+            .phases
+            .last()
+            .map(|p| p.threads.iter().flatten().any(|o| matches!(o, Op::Export { .. })))
+            .unwrap_or(false)
+            && e.calls.iter().all(|c| c.result.is_ok());
+        let (iv, shapes) = oracle::check_imports(&model, &e.final_files, &last_written, closed, "final tree");
+        vs.extend(iv);
+        vs.extend(oracle::check_layout(&e.final_files, &last_written, no_render, "final tree"));
+        if snapshots && matches!(prop, "C03" | "C08" | "C04") {
+            // the same on every intermediate tree of single-threaded phases
+            let mut written: BTreeSet<String> = BTreeSet::new();
+            let mut phase = usize::MAX;
+            for c in &e.calls {
+                if c.phase != phase {
+                    phase = c.phase;
+                    if plan.phases[phase].fresh_process {
+                        written.clear();
+                    }
+                }
+                if let (Some(snap), Ok(adds)) = (&c.snapshot, oracle::op_adds(&model, &c.op)) {
+                    if c.result.is_ok() {
+                        written.extend(adds.into_iter().map(|a| a.0));
+                    }
+                    let (iv, _) = oracle::check_imports(&model, snap, &written, false, &format!("after call {}", c.idx));
+                    vs.extend(iv);
+                    vs.extend(oracle::check_layout(snap, &written, no_render, &format!("after call {}", c.idx)));
+                }
+            }
+        }
+        (vs, shapes)
+    };
+    let (mut vs, shapes) = judge(&e);
     out.shapes = shapes;
-    vs.extend(oracle::check_layout(&e.final_files, &last_written, no_render, "final tree"));
-    if snapshots && matches!(prop, "C03" | "C08" | "C04") {
-        // the same on every intermediate tree of single-threaded phases
-        let mut written: BTreeSet<String> = BTreeSet::new();
-        let mut phase = usize::MAX;
-        for c in &e.calls {
-            if c.phase != phase {
-                phase = c.phase;
-                if plan.phases[phase].fresh_process {
-                    written.clear();
-                }
-            }
-            if let (Some(snap), Ok(adds)) = (&c.snapshot, oracle::op_adds(&model, &c.op)) {
-                if c.result.is_ok() {
-                    written.extend(adds.into_iter().map(|a| a.0));
-                }
-                let (iv, _) = oracle::check_imports(&model, snap, &written, false, &format!("after call {}", c.idx));
-                vs.extend(iv);
-                vs.extend(oracle::check_layout(snap, &written, no_render, &format!("after call {}", c.idx)));
-            }
-        }
-    }
     // metamorphic reference: the canonical history must give the same tree
     if matches!(prop, "C05" | "C06" | "C13") && !perturbed {
         let canon = canonical(plan, &model);
@@ -284,14 +290,24 @@ pub fn check_plain(prop: &str, plan: &Plan) -> Outcome {
         }
     }
     if plan.double_exec {
+        // the same plan once more in the same OS process: nothing but the registry (which a
+        // fresh simulated process resets) may carry over, so the second execution is judged by
+        // the same oracles and its event log must equal the first one's
         let e2 = execute(plan, opts);
         absorb(&mut out, &e2);
+        let (v2, _) = judge(&e2);
+        for mut v in v2 {
+            if !vs.iter().any(|x| x.oracle == v.oracle && x.file == v.file) {
+                v.detail = format!("second execution of the same plan in the same OS process: {}", v.detail);
+                vs.push(v);
+            }
+        }
         if log_hash(&e2) != out.log_hash {
-            let mut d = oracle::diff_trees(&e.final_files, &e2.final_files, "same plan executed twice in one process", &["C13"]);
+            let mut d = oracle::diff_trees(&e.final_files, &e2.final_files, "same plan executed twice in one process", &["C13", prop]);
             if d.is_empty() {
                 d.push(Violation::new(
                     "double-exec",
-                    &["C13"],
+                    &["C13", prop],
                     None,
                     "same plan executed twice with identical simulator choices produced different event logs".into(),
                 ));
@@ -589,6 +605,60 @@ pub fn check_c17_base(plan: &Plan) -> Outcome {
 /// error instead of a hang. It never influences a run.
 pub static PROGRESS: std::sync::atomic::AtomicU64 = std::sync::atomic::AtomicU64::new(0);
 
+/// Run `check_case` in a forked child of this (pristine, single-threaded) process, so that every
+/// case starts from untouched process-wide state: whatever the code under test keeps in statics
+/// (the export registry, or anything a change adds) cannot leak from one case into the next.
+/// Returns `Err` if the child died or stalled.
+pub fn check_case_isolated(prop: &str, case: &Case) -> Result<Outcome, String> {
+    PROGRESS.fetch_add(1, std::sync::atomic::Ordering::Relaxed);
+    unsafe {
+        let mut fds = [0i32; 2];
+        if libc::pipe(fds.as_mut_ptr()) != 0 {
+            return Err("pipe failed".into());
+        }
+        let pid = libc::fork();
+        if pid < 0 {
+            return Err("fork failed".into());
+        }
+        if pid == 0 {
+            libc::close(fds[0]);
+            // a stalled simulation must not hang the batch
+            libc::alarm(240);
+            let out = check_case(prop, case);
+            let bytes = serde_json::to_vec(&out).unwrap_or_default();
+            let mut off = 0;
+            while off < bytes.len() {
+                let n = libc::write(fds[1], bytes[off..].as_ptr() as *const libc::c_void, bytes.len() - off);
+                if n <= 0 {
+                    break;
+                }
+                off += n as usize;
+            }
+            libc::close(fds[1]);
+            libc::_exit(0);
+        }
+        libc::close(fds[1]);
+        let mut buf = Vec::with_capacity(1 << 14);
+        let mut chunk = [0u8; 1 << 14];
+        loop {
+            let n = libc::read(fds[0], chunk.as_mut_ptr() as *mut libc::c_void, chunk.len());
+            if n <= 0 {
+                break;
+            }
+            buf.extend_from_slice(&chunk[..n as usize]);
+        }
+        libc::close(fds[0]);
+        let mut status = 0i32;
+        libc::waitpid(pid, &mut status, 0);
+        if buf.is_empty() {
+            return Err(format!(
+                "the process running the case ended without a result (wait status {status:#x}): it crashed, or stalled for 240 s because the code under test blocks on something the scheduler does not control"
+            ));
+        }
+        serde_json::from_slice(&buf).map_err(|e| format!("bad outcome from child: {e}"))
+    }
+}
+
 pub fn check_case(prop: &str, case: &Case) -> Outcome {
     PROGRESS.fetch_add(1, std::sync::atomic::Ordering::Relaxed);
     match case {
@@ -607,6 +677,23 @@ pub fn check_case(prop: &str, case: &Case) -> Outcome {
             path,
         } => check_faulted(base, *thread, *idx, *kind, path),
         Case::HardIo { base, at } => observe_hard_io(base, *at),
+        Case::HardIoSweep { base } => {
+            let n = data_calls(&execute(base, ExecOpts { snapshots: false, no_invariants: true, no_render: true }));
+            let mut total = Outcome::default();
+            for at in 1..=n.min(60) {
+                let o = observe_hard_io(base, at);
+                total.execs += o.execs;
+                total.steps += o.steps;
+                for (k, v) in o.probes {
+                    *total.probes.entry(k).or_insert(0) += v;
+                }
+                for (k, v) in o.fired {
+                    *total.fired.entry(k).or_insert(0) += v;
+                }
+                total.log_hash = crate::rng::mix(&[total.log_hash, o.log_hash]);
+            }
+            total
+        }
     }
 }
 
@@ -690,10 +777,7 @@ pub fn cases_for(prop: &str, seed: u64) -> Vec<Case> {
             }
             // observational hard I/O errors on a tenth of the single-threaded histories
             if base.phases[0].threads.len() == 1 && seed % 10 == 0 {
-                let n = data_calls(&execute(&base, ExecOpts { snapshots: false, no_invariants: true, no_render: true }));
-                for at in 1..=n.min(60) {
-                    cases.push(Case::HardIo { base: base.clone(), at });
-                }
+                cases.push(Case::HardIoSweep { base: base.clone() });
             }
             cases
         }
